@@ -280,7 +280,7 @@ fn main() {
         return;
     }
 
-    let mut cs = Cases::new(&a.out, "Generated Wire_Model C10_Model");
+    let mut cs = Cases::new(&a.out, "Generated Wire_Model C10_Model Msgpack_Model");
     sm.rule = "fault enumeration: every prefix, every single-bit flip and 29 byte substitutions at every offset of small valid buffers, random multi-byte corruption, header variants, arbitrary byte strings; each loaded into a pre-populated engine with tags enabled. Correspondence cases: header_dispatch vs decode_class on header variants and a sample of the corrupted buffers (non-trivial = the bytes start with the magic or the gzip header, or differ from them in one byte), plus decoded rules with the hostname-anchor bit and no hostname".into();
 
     // ---- F25 probe first: a 10-byte input whose str32 length prefix announces 256 MiB. If the
@@ -314,6 +314,61 @@ fn main() {
         }
     }
     sm.extra.insert("buffer_sizes".into(), json!(buffers.iter().map(|b| b.len()).collect::<Vec<_>>()));
+
+    // ---- the decoder MODEL (Msgpack_Model.decode_wire_bytes: header, msgpack tree, typed layer)
+    // against the real loader, on the classes of input the codec theorems speak about: the crate's
+    // own output, its truncations, own output followed by junk, and the same value with a
+    // non-minimal array header (rmp accepts every width).  (On arbitrary corruptions the model is
+    // only a sub-function of the real decoder — it refuses bin-for-str, signed formats, structs as
+    // maps — so those are not compared.)
+    {
+        let loads = |b: &[u8]| -> bool {
+            let b = b.to_vec();
+            catch(move || Engine::new(true).deserialize(&b).is_ok()).unwrap_or(false)
+        };
+        let mut dcase = |cs: &mut Cases, b: &[u8], kind: &str| {
+            let ok = loads(b);
+            cs.stat(&format!("decoder_model_{}_{}", kind, if ok { "loads" } else { "fails" }));
+            let shown = if b.len() > 32 { &b[..32] } else { b };
+            cs.case(format!("Bool.eqb (match decode_wire_bytes {} with Some _ => true | None => false end) {}", hx(b), cbool(ok)),
+                json!({"kind": "decoder_model", "class": kind, "len": b.len(), "bytes_prefix": hex(shown), "impl_loads": ok}), true);
+        };
+        for buf in buffers.iter().take(3) {
+            dcase(&mut cs, buf, "own_output");
+            let n = buf.len();
+            let step = (n / 24).max(1);
+            let mut cuts: Vec<usize> = (0..n).step_by(step).collect();
+            cuts.extend((n.saturating_sub(6))..n);
+            cuts.extend(0..7.min(n));
+            cuts.sort();
+            cuts.dedup();
+            for k in cuts {
+                dcase(&mut cs, &buf[..k], "truncated");
+            }
+            for junk in [&[0u8][..], &[0xc1, 0xff, 0x00][..], &buf[..9.min(n)]] {
+                let mut b = buf.clone();
+                b.extend_from_slice(junk);
+                dcase(&mut cs, &b, "trailing_bytes");
+            }
+            // top-level struct array: fixarray -> array16 / array32
+            if n > 8 && buf[5] == 0xdc {
+                // array16 -> array32
+                let mut b = buf[..5].to_vec();
+                b.extend_from_slice(&[0xdd, 0, 0, buf[6], buf[7]]);
+                b.extend_from_slice(&buf[8..]);
+                dcase(&mut cs, &b, "wider_array_header");
+            }
+            if n > 5 && buf[5] & 0xf0 == 0x90 {
+                let k = buf[5] & 0x0f;
+                for hdr in [vec![0xdc, 0, k], vec![0xdd, 0, 0, 0, k]] {
+                    let mut b = buf[..5].to_vec();
+                    b.extend_from_slice(&hdr);
+                    b.extend_from_slice(&buf[6..]);
+                    dcase(&mut cs, &b, "wider_array_header");
+                }
+            }
+        }
+    }
 
     // ---- header variants (all of them are correspondence cases)
     let mut variants: Vec<Vec<u8>> = vec![vec![], MAGIC.to_vec(), GZ.to_vec(), vec![0xd1], MAGIC[..3].to_vec(), GZ[..9].to_vec()];
